@@ -736,6 +736,7 @@ theorem K_step (op : Op) (h : K c) : K (step c op) := by
   | setSched l d => exact h
   | tick ms => exact h
   | setSmCallback => exact h
+  | setSendOnConnect on => exact h
   | setFlags f => exact ⟨HW_setFlags h.1, B_setFlags h.2⟩
   | usend it => exact ⟨HW_xmppSend h.1, B_xmppSend h.2⟩
   | uraw it => exact ⟨HW_xmppSendRaw h.1, B_xmppSendRaw h.2⟩
